@@ -135,7 +135,7 @@ def setup(ctx):
 # -- export --------------------------------------------------------------------------
 
 def phase(rng):
-    return rng.choice([0.25, -0.5, 0.125, 1.0, 0.3, -1.7, 0.0417, 0.75])
+    return rng.choice([0.25, -0.5, 0.125, 1.0, 0.3, -1.7, 0.0417, 0.75, 1.25, -0.25])
 
 
 def pool(rng):
@@ -160,6 +160,7 @@ def pool(rng):
         ("scalar", g.scalar(complex(round(rng.uniform(-1, 1), 2),
                                     round(rng.uniform(-1, 1), 2)))),
         ("scalar", g.scalar(round(rng.uniform(0.2, 2), 2), is_mixed=True)),
+        ("scalar", g.scalar(rng.choice([-0.5, -1, -1.25, 0.5 - 0.5j]), is_mixed=True)),
         ("scalar", g.sqrt(2)),
         ("classical", g.Copy()), ("classical", g.Match()),
         ("classical", g.ClassicalGate("NOT", 1, 1, [0, 1, 1, 0])),
@@ -243,7 +244,27 @@ def scenario(rng):
             gate = rng.choice([g.CX, g.CZ, g.CRz(phase(rng)), g.SWAP])
             d = d >> Id(d.cod[:i]) @ gate @ Id(d.cod[i + 2:])
         return d
-    if rng.random() < .5:
+    r = rng.random()
+    if r < .3:
+        # interference: rotations with phases well outside [0, 1) between two
+        # layers of Hadamards, so that relative signs on the control matter
+        n = rng.randint(2, 3)
+        wide = [0.25, -0.25, -0.5, 1.25, 1.5, -1.7, 2.75, -3.1, 0.9]
+        d = g.Ket(*[rng.randint(0, 1) for _ in range(n)])
+        d = d >> Id(0).tensor(*[g.H if rng.random() < .8 else Id(1) for _ in range(n)])
+        for _ in range(rng.randint(1, 3)):
+            i = rng.randrange(n - 1)
+            gate = rng.choice([g.CRz(rng.choice(wide)), g.CRz(rng.choice(wide)), g.CZ,
+                               g.CX, g.Controlled(g.Y)])
+            d = d >> Id(i) @ gate @ Id(n - i - 2)
+            j = rng.randrange(n)
+            one_q = rng.choice([g.Rz(rng.choice(wide)), g.Rx(rng.choice(wide)), g.H, g.S])
+            d = d >> Id(j) @ one_q @ Id(n - j - 1)
+        d = d >> Id(0).tensor(*[g.H if rng.random() < .8 else Id(1) for _ in range(n)])
+        d = d >> Id(0).tensor(*[c.Measure() if rng.random() < .8 else c.Discard()
+                                for _ in range(n)])
+        return d, ["ket", "gate", "measure"]
+    if r < .65:
         # qubit swaps, then a preparation in the middle, then entangling gates
         n = rng.randint(2, 3)
         d = g.Ket(*[rng.randint(0, 1) for _ in range(n)])
@@ -327,6 +348,8 @@ def export_case(rng, ctx):
     clean = ctx.index % 2 == 0
     maxw = 5 if ctx.tier == "thorough" and ctx.index % 8 == 1 else 4
     d, kinds, mechanisms = rand_circuit(rng, rng.randint(1, 10), clean, maxw)
+    if any(getattr(b, "name", "") in ("CY", "CH") for b in d.boxes):
+        kinds = kinds + ["gate-noimport"]    # exportable, but from_tk has no CY/CH
     ctx.count("clean_circuits" if clean else "unrestricted_circuits")
     witness = dict(circuit=lambda: safe_repr(d, 3000), offsets=d.offsets,
                    clean_mode=clean, mechanisms=sorted(mechanisms))
